@@ -51,6 +51,16 @@ class time_guard(object):
         self.seconds = seconds
 
     def _raise(self, signum=None, frame=None):
+        # a check may have narrowed the address-space limit (C20): give the harness room again first, otherwise
+        # raising the timeout can itself fail with MemoryError and the guard never gets through
+        try:
+            import resource
+
+            soft, hard = resource.getrlimit(resource.RLIMIT_AS)
+            if soft != hard:
+                resource.setrlimit(resource.RLIMIT_AS, (hard, hard))
+        except Exception:
+            pass
         # where the code under test was when the budget ran out (innermost amoco frame)
         # (generic helpers - the structure unpackers, the file wrapper - are skipped when a caller is more specific)
         site = generic = ""
